@@ -28,50 +28,14 @@ import (
 	"verif/par"
 )
 
-// regimes: warm-up scripts (block kinds of heights 1..len).
-var regimes = map[string][]string{
-	// producers registered at height 1, still pending; the free blocks see them become active
-	// and cross H1 (CRC-only DPoS, 8) and H2 (public DPoS, 10)
-	"early": {"regall", "empty", "empty", "empty", "empty"},
-	// all four producers active and voted, DPoS running with elected arbiters, new-CR era
-	// (irreversibility bookkeeping, revert-to-POW) and DPoS v2 start height reached
-	"late": {"regall", "empty", "empty", "empty", "empty", "empty", "voteall:0", "empty", "empty", "empty", "empty", "empty", "empty", "empty", "empty"},
-	// late + the on-duty arbiter misses its turn twice: one elected producer has just been set
-	// inactive (ActivateProducer becomes admissible)
-	"inactive": {"regall", "empty", "empty", "empty", "empty", "empty", "voteall:0", "empty", "empty", "empty", "empty", "empty", "empty", "empty", "empty", "skip", "empty", "skip"},
-	// late + a producer canceled and its deposit lock-up elapsed (ReturnDepositCoin admissible);
-	// filled in by main (the canceled producer is the CRC-seat representative)
-	"canceled": nil,
-}
-
-var canonOpts = &dposkit.CanonOpts{
-	Skip: map[string]bool{
-		// back pointer to the Arbiters object, not state
-		".arbitrators": true,
-		// height label of the checkpoint object (always 0 for Snapshot())
-		".Height": true,
-		// set by the environment (SetNeedRevertToDPOSTX from the DPoS network layer) outside block
-		// processing; the harness sets it just before a block that carries RevertToDPOS
-		".StateKeyFrame.NeedRevertToDPOSTX": true,
-	},
-	AsSet: map[string]bool{},
-}
-
-type explicit struct {
-	ConsensusAlgorithm     string
-	LastIrreversibleHeight uint32
-	DPOSStartHeight        uint32
-}
-
-func canonOf(in *dposkit.Inst) []string {
-	lines := dposkit.Canon(in.A.Snapshot(), canonOpts)
-	ex := explicit{in.A.GetConsensusAlgorithm().String(), in.A.GetLastIrreversibleHeight(), in.A.DPOSStartHeight}
-	lines = append(lines, dposkit.Canon(ex, nil)...)
-	for i := len(lines) - 3; i < len(lines); i++ {
-		lines[i] = "explicit" + lines[i]
-	}
-	sort.Strings(lines)
-	return lines
+// depth[regime] = {representative depth quick, thorough, full-alphabet depth quick, thorough}
+var depths = map[string][4]int{
+	"early":    {3, 4, 1, 2},
+	"late":     {2, 3, 1, 2},
+	"inactive": {2, 3, 1, 2},
+	"canceled": {2, 3, 1, 1},
+	"v2":       {2, 3, 1, 1},
+	"v2active": {2, 3, 1, 1},
 }
 
 // artefact of a violation / replay
@@ -122,7 +86,7 @@ func lineGroup(l string) string {
 	if i := strings.Index(p, " = "); i >= 0 {
 		p = p[:i]
 	}
-	return foldProducer(generic(p))
+	return dposkit.FoldProducer(dposkit.Generic(p))
 }
 
 func vecOf(lines []string) groupVec {
@@ -134,8 +98,16 @@ func vecOf(lines []string) groupVec {
 		}
 		h := fnv.New64a()
 		h.Write([]byte(l))
-		// order-independent combination is fine: lines are distinct
-		v[id] += h.Sum64() | 1
+		// order-independent combination (lines are distinct); the FNV value goes through a
+		// non-linear finaliser first: raw FNV-1a values of lines that differ in the last byte
+		// differ by +-prime, and such differences cancel in a sum
+		x := h.Sum64()
+		x ^= x >> 30
+		x *= 0xbf58476d1ce4e5b9
+		x ^= x >> 27
+		x *= 0x94d049bb133111eb
+		x ^= x >> 31
+		v[id] += x | 1
 	}
 	return v
 }
@@ -239,7 +211,7 @@ func (e *explorer) build(h []string, record bool) *dposkit.Inst {
 }
 
 func (e *explorer) note(k string, in *dposkit.Inst) {
-	v := vecOf(canonOf(in))
+	v := vecOf(dposkit.StateLines(in))
 	if old, had := e.memo.put(k, v); had {
 		if d := old.diff(v); len(d) > 0 {
 			var names []string
@@ -275,7 +247,7 @@ func (e *explorer) referenceLines(h []string, k int) []string {
 		}
 	}
 	defer in.Close()
-	return canonOf(in)
+	return dposkit.StateLines(in)
 }
 
 // compare evaluates one comparison. ignore lists field groups already explained by a
@@ -283,12 +255,19 @@ func (e *explorer) referenceLines(h []string, k int) []string {
 // them) and reports the ones not ignored under clause.
 func (e *explorer) compare(sk *dposkit.Sink, in *dposkit.Inst, h []string, k int, clause string, art caseT, ignore map[int]bool) []int {
 	atomic.AddInt64(&e.compares, 1)
-	got := canonOf(in)
+	got := dposkit.StateLines(in)
 	want, ok := e.memo.get(e.prefixKey(h, k))
 	if !ok {
 		evid.Fatalf("C21: no reference for prefix %d of %v", k, h)
 	}
 	d := want.diff(vecOf(got))
+	if os.Getenv("C21_DEBUG") != "" {
+		var names []string
+		for _, g := range d {
+			names = append(names, groupName(g))
+		}
+		fmt.Printf("  compare %v keep %d (%s %s): differing groups %v\n", h, k, clause, art.Mode, names)
+	}
 	if len(d) == 0 {
 		return nil
 	}
@@ -335,8 +314,8 @@ func (e *explorer) compare(sk *dposkit.Sink, in *dposkit.Inst, h []string, k int
 			return out
 		}
 		rf, gf := keep(ref), keep(got)
-		fields = diffFields(rf, gf)
-		diff := dposkit.DiffLines(rf, gf, 8)
+		fields = dposkit.DiffFieldNames(rf, gf)
+		all := dposkit.DiffLines(rf, gf, 0)
 		e.memo.mu.Lock()
 		if _, ok := e.memo.fields[gkey]; !ok {
 			e.memo.fields[gkey] = fields
@@ -346,6 +325,13 @@ func (e *explorer) compare(sk *dposkit.Sink, in *dposkit.Inst, h []string, k int
 			sig := fmt.Sprintf("C21|%s|field=%s", clause, f)
 			if sk.Has(sig) {
 				continue
+			}
+			var diff []string
+			base := strings.TrimSuffix(f, "[membership]")
+			for _, l := range all {
+				if strings.HasPrefix(lineGroup(l[2:]), base) && len(diff) < 6 {
+					diff = append(diff, l)
+				}
 			}
 			sk.Violate(sig, fmt.Sprintf("regime %s, history %v, %s rollback keeping %d of the free blocks: %s differs (- state built directly, + this instance): %s",
 				e.regime, h, art.Mode, art.Rollback, f, strings.Join(diff, " | ")), art)
@@ -423,6 +409,13 @@ func (e *explorer) check(sk *dposkit.Sink, h []string, in *dposkit.Inst, direct 
 		if k == L-1 {
 			d := e.compare(sk, in, h, k, "rollback-vs-direct", caseT{e.regime, h, k, "stepwise"}, nil)
 			e.memo.setDirty(key(h), d)
+			if os.Getenv("C21_DEBUG") != "" {
+				var names []string
+				for _, g := range d {
+					names = append(names, groupName(g))
+				}
+				fmt.Printf("  single-step dirty of %v: %v\n", h, names)
+			}
 			if len(d) > 0 {
 				clean = false
 			}
@@ -481,107 +474,6 @@ func (e *explorer) check(sk *dposkit.Sink, h []string, in *dposkit.Inst, direct 
 	}
 }
 
-// producer maps hold the same *Producer under different names depending on its state
-var producerMaps = []string{"PendingProducers", "ActivityProducers", "InactiveProducers", "CanceledProducers", "IllegalProducers", "PendingCanceledProducers", "DposV2EffectedProducers"}
-
-// diffFields turns a line diff into stable field names: generic paths (keys replaced by [*]),
-// producer maps folded into "Producer", and a whole map element present on one side only
-// reported once as <map>[membership].
-func diffFields(a, b []string) []string {
-	prefixes := func(lines []string) map[string]bool {
-		m := map[string]bool{}
-		for _, l := range lines {
-			p := l
-			if i := strings.Index(p, " = "); i >= 0 {
-				p = p[:i]
-			}
-			depth := 0
-			for i, r := range p {
-				if r == '[' {
-					depth++
-				} else if r == ']' {
-					depth--
-					if depth == 0 {
-						m[p[:i+1]] = true
-					}
-				}
-			}
-		}
-		return m
-	}
-	pa, pb := prefixes(a), prefixes(b)
-	set := map[string]bool{}
-	for _, l := range dposkit.DiffLines(a, b, 0) {
-		side, p := l[0], l[2:]
-		if i := strings.Index(p, " = "); i >= 0 {
-			p = p[:i]
-		}
-		other := pb
-		if side == '+' {
-			other = pa
-		}
-		name := ""
-		depth := 0
-		for i, r := range p {
-			if r == '[' {
-				depth++
-			} else if r == ']' {
-				depth--
-				if depth == 0 && !other[p[:i+1]] {
-					name = generic(p[:i+1])
-					name = name[:len(name)-3] + "[membership]"
-					break
-				}
-			}
-		}
-		if name == "" {
-			name = generic(p)
-		}
-		name = foldProducer(name)
-		if strings.HasSuffix(name, ".len") {
-			name = strings.TrimSuffix(name, ".len") + "[membership]"
-		}
-		set[name] = true
-	}
-	var out []string
-	for k := range set {
-		out = append(out, k)
-	}
-	sort.Strings(out)
-	return out
-}
-
-func foldProducer(name string) string {
-	for _, pm := range producerMaps {
-		if i := strings.Index(name, "."+pm+"[*]."); i >= 0 {
-			return "Producer." + name[i+len(pm)+5:]
-		}
-	}
-	return name
-}
-
-func generic(p string) string {
-	var sb strings.Builder
-	depth := 0
-	for _, r := range p {
-		switch {
-		case r == '[':
-			if depth == 0 {
-				sb.WriteString("[*")
-			}
-			depth++
-		case r == ']':
-			depth--
-			if depth == 0 {
-				sb.WriteRune(']')
-			}
-		case depth == 0:
-			sb.WriteRune(r)
-		}
-	}
-	return sb.String()
-}
-
 type node struct {
 	hist []string
 	ops  []string // every admissible block kind
@@ -605,6 +497,7 @@ func main() {
 	finish := func(c evid.Coverage) { os.RemoveAll(scr); r.Finish(c) }
 	hx.QuietLogs(scr)
 	w := dposkit.NewWorld()
+	regimes := w.Regimes()
 
 	if t := os.Getenv("TRACE"); t != "" {
 		in := w.NewInst()
@@ -618,7 +511,7 @@ func main() {
 				a.LastIrreversibleHeight, a.DPOSStartHeight, a.DPOSWorkHeight, a.NoProducers, a.NeedNextTurnDPOSInfo, a.DPoSV2ActiveHeight)
 		}
 		if os.Getenv("DUMP") != "" {
-			fmt.Println(strings.Join(canonOf(in), "\n"))
+			fmt.Println(strings.Join(dposkit.StateLines(in), "\n"))
 		}
 		os.RemoveAll(scr)
 		return
@@ -627,8 +520,6 @@ func main() {
 	if r.Replay != "" {
 		var c caseT
 		sig := r.LoadReplay(&c)
-		reps := w.Representatives()
-		regimes["canceled"] = append(append([]string{}, regimes["late"]...), fmt.Sprintf("cancel:%d", reps[0]), "empty", "empty", "empty")
 		e := &explorer{w: w, regime: c.Regime, warm: regimes[c.Regime], memo: newMemo(), minBack: -2}
 		fmt.Printf("replay %s\n  regime %s history %v rollback keeping %d (%s)\n", sig, c.Regime, c.History, c.Rollback, c.Mode)
 		e.build(nil, true).Close()
@@ -666,26 +557,26 @@ func main() {
 	}
 	// every history of length <= fullDepth over the full alphabet, and every history of length
 	// <= repDepth over the alphabet restricted to the two representative producers
-	fullDepth := r.Pick(1, 2)
-	repDepth := r.Pick(3, 4)
-	if d := os.Getenv("C21_DEPTH"); d != "" {
-		fmt.Sscan(d, &repDepth)
-	}
-	if d := os.Getenv("C21_FULL"); d != "" {
-		fmt.Sscan(d, &fullDepth)
-	}
+	var fullDepth, repDepth int
 	reps := w.Representatives()
-	regimes["canceled"] = append(append([]string{}, regimes["late"]...), fmt.Sprintf("cancel:%d", reps[0]), "empty", "empty", "empty")
 	var totalStates, totalTransitions, totalRuns, totalRollbacks, totalCompares, totalMismatch, totalExplained, totalReplays, totalReplaySkipped, totalPruned int64
 	perDepth := map[string][]int{}
 	var samples []interface{}
 	exhaustive := true
-	names := []string{"early", "late", "inactive", "canceled"}
+	names := dposkit.RegimeNames
 	if rg := os.Getenv("C21_REGIMES"); rg != "" {
 		names = strings.Split(rg, ",")
 	}
 	for _, name := range names {
 		e := &explorer{w: w, regime: name, warm: regimes[name], memo: newMemo(), minBack: -2}
+		dd := depths[name]
+		repDepth, fullDepth = r.Pick(dd[0], dd[1]), r.Pick(dd[2], dd[3])
+		if d := os.Getenv("C21_DEPTH"); d != "" {
+			fmt.Sscan(d, &repDepth)
+		}
+		if d := os.Getenv("C21_FULL"); d != "" {
+			fmt.Sscan(d, &fullDepth)
+		}
 		// root
 		root := e.build(nil, true)
 		frontier := []node{{hist: nil, ops: root.Ops(), rep: root.OpsFor(reps), only: true}}
@@ -768,12 +659,17 @@ func main() {
 		totalReplaySkipped += e.replaySkipped
 		totalPruned += e.pruned
 	}
-	depth := repDepth
+	depth := 0
+	for _, name := range names {
+		if d := r.Pick(depths[name][0], depths[name][1]); d > depth {
+			depth = d
+		}
+	}
 	r.Assume = append(r.Assume,
 		"one DPoS-relevant transaction (or none) per free block; blocks are fed without confirmations (ProcessBlock(block, nil)), so arbiter-inactivity counting is not exercised",
 		"alphabet restricted to block kinds whose admissibility under the node's own validation was established by reading the context checks: empty, register, update (nickname+node key), cancel, deposit top-up, return deposit after lock-up, vote (v0.9 vote output, previous vote output spent), cancel vote, RevertToPOW(NoBlock) while in DPOS, RevertToDPOS while in POW; a NextTurnDPOSInfo transaction is added to every block while the state requires one",
 		"CR committee present but empty (never in election period)",
-		"compared state = canonical rendering of Arbiters.Snapshot() (every field of CheckPoint/StateKeyFrame/Producer, maps by sorted key) + GetConsensusAlgorithm/GetLastIrreversibleHeight/DPOSStartHeight; excluded: CheckPoint.arbitrators (back pointer), CheckPoint.Height (label), NeedRevertToDPOSTX (set by the environment outside block processing)")
+		"compared state = canonical rendering of Arbiters.Snapshot() (every field of CheckPoint/StateKeyFrame/Producer, maps by sorted key) + GetConsensusAlgorithm/GetLastIrreversibleHeight/DPOSStartHeight; excluded: CheckPoint.arbitrators (back pointer), CheckPoint.Height (label), NeedRevertToDPOSTX (set by the environment outside block processing); zero-valued / empty entries of the additive maps DposV2VoteRights, UsedDposV2Votes, UsedDposVotes, DPoSV2RewardInfo, detailedDPoSV2Votes are treated as absent; the vote maps inside the Producer copies embedded in arbiter members are not compared (aliasing with the live producer depends on allocation history)")
 	finish(evid.Coverage{
 		"states":                        totalStates,
 		"transitions":                   totalTransitions,
